@@ -155,7 +155,7 @@ func hashableBasic(t types.Type) bool {
 }
 
 func C07(c *Ctx) {
-	c.R.Explanation = "Decides structural necessary conditions of 'processing never crashes the host' over core, match and the interpreters: (R1) a frozen table of values the API contract allows to be nil (no Control; absent bindings; the Execution returned with an error; null bindings; null nodes/branches while loading; absent action/guard source for native actions; absent branching) — every dereferencing use reachable through copies, phis, variables and static calls is dominated by a nil test of that value / field path or by the err==nil edge of the producing call; (R2) every comma-less type assertion is dominated by a successful test of the same value and type (infeasible blocks pruned); (R3) make sizes that are not constants or lengths are bounded below; (R4) the goja program runs only under a deferred recover, explicit panics reachable from Exec lie in functions that are only called from the script runtime, every other call from host-side interpreter code into goja (exporting a value runs getters) is dominated by a deferred recover, and no error return of Exec carries the error value a goja Run* call produced (its text runs the thrown object's toString); (R5) no error result is dropped in core/match/ecmascript except the enumerated infallible calls, and Walk turns a Step error into the error-node transition; (R6) values used as keys of interface-keyed maps are guarded by a test for a hashable type; (R7) recursive engine functions are never applied to values that come straight from the script runtime (which may be cyclic), and such a value is handed to fmt/log only under %T; (R8) the processing functions dereference nodes and branches of a compiled spec without a test, so Compile must establish that there are none: from the nil edge of every node value and branch element Compile visits, the store that marks the spec compiled is unreachable unless the null was first replaced by a fresh value in the spec itself, and Compile visits the branches of every node. Panics inside goja/std, stack exhaustion on deep JSON and index bounds are not decided."
+	c.R.Explanation = "Decides structural necessary conditions of 'processing never crashes the host' over core, match and the interpreters: (R1) a frozen table of values the API contract allows to be nil (no Control; absent bindings; the Execution returned with an error; null bindings; null nodes/branches while loading; absent action/guard source for native actions; absent branching; the optional control settings of a sio crew) — every dereferencing use reachable through copies, phis, variables and static calls is dominated by a nil test of that value / field path or by the err==nil edge of the producing call; (R2) every comma-less type assertion is dominated by a successful test of the same value and type (infeasible blocks pruned); (R3) make sizes that are not constants or lengths are bounded below; (R4) the goja program runs only under a deferred recover, explicit panics reachable from Exec lie in functions that are only called from the script runtime, every other call from host-side interpreter code into goja (exporting a value runs getters) is dominated by a deferred recover, and no error return of Exec carries the error value a goja Run* call produced (its text runs the thrown object's toString); (R5) no error result is dropped in core/match/ecmascript except the enumerated infallible calls, and Walk turns a Step error into the error-node transition; (R6) values used as keys of interface-keyed maps are guarded by a test for a hashable type; (R7) recursive engine functions are never applied to values that come straight from the script runtime (which may be cyclic), and such a value is handed to fmt/log only under %T; (R8) the processing functions dereference nodes and branches of a compiled spec without a test, so Compile must establish that there are none: from the nil edge of every node value and branch element Compile visits, the store that marks the spec compiled is unreachable unless the null was first replaced by a fresh value in the spec itself, and Compile visits the branches of every node. Panics inside goja/std, stack exhaustion on deep JSON and index bounds are not decided."
 	c.R.Rule("C07-R1", "E2", "nil contract", 12)
 	c.R.Rule("C07-R2", "E2", "type assertions are checked", 3)
 	c.R.Rule("C07-R3", "E2", "allocation sizes bounded below", 1)
@@ -271,7 +271,16 @@ func C07(c *Ctx) {
 	if nload < 4 {
 		c.R.Break("C07-R1: expected node/branch element loads in Compile and ParsePatterns, found %d", nload)
 	}
-	res := nilc.Check(nilc.Config{Prog: c.P, Engine: map[string]bool{"core": true, "match": true}, PairRule: true}, srcs)
+	// the single-loop host: a crew may be configured without control settings (Walk substitutes the default)
+	nctl := 0
+	for i, v := range nilc.FieldLoads(c.P.FuncsIn("sio"), prog.Abs("sio"), "CrewConf", "Ctl") {
+		nctl++
+		srcs = append(srcs, nilc.Source{V: v, Why: "a crew may be configured without control settings", Label: fmt.Sprintf("CrewConf.Ctl load#%d in %s", i+1, fname(v.(ssa.Instruction).Parent()))})
+	}
+	if nctl == 0 {
+		c.R.Break("C07-R1: no read of CrewConf.Ctl found in package sio")
+	}
+	res := nilc.Check(nilc.Config{Prog: c.P, Engine: map[string]bool{"core": true, "match": true, "sio": true}, PairRule: true}, srcs)
 	c.reportNil("C07-R1", res)
 	c.R.Extra["nullable_sources"] = len(srcs)
 
